@@ -142,6 +142,7 @@ EXPECTED = {
  "o_check_inuse":         ("src/debt/list.rs", "check_cooldown", "load", 0),
  "o_check_writers":       ("src/debt/list.rs", "check_cooldown", "load", 1),
  "o_check_cas":           ("src/debt/list.rs", "check_cooldown", "compare_exchange", 0),
+ "o_check_back":          ("src/debt/list.rs", "check_cooldown", "store", 0),
  "o_resv_add":            ("src/debt/list.rs", "reserve_writer", "fetch_add", 0),
  "o_get_claim":           ("src/debt/list.rs", "get", "compare_exchange", 0),
  "o_get_head_relaxed":    ("src/debt/list.rs", "get", "load", 0),
